@@ -460,6 +460,10 @@ func nontrivial(seq []evKind) bool {
 }
 
 func failSeq(t interface{ Fatalf(string, ...any) }, flavour string, seq []evKind, msg string) {
+	if strings.Contains(msg, "no response within") || strings.Contains(msg, "did not return after end of stream") {
+		// an unanswered request: every further execution against this service would wait for the watchdog too
+		kit.Abort(fmt.Sprintf("C19 violated [%s]: %s\n  request sequence: %s, end-of-stream", flavour, msg, seqString(seq)))
+	}
 	kit.Rec.Violation(msg)
 	t.Fatalf("C19 violated [%s]: %s\n  request sequence: %s, end-of-stream", flavour, msg, seqString(seq))
 }
@@ -578,6 +582,9 @@ func propConcurrent(t *rapid.T) {
 		nt = nt || nontrivial(s)
 		shape = append(shape, seqString(s))
 		if res[i] != "" {
+			if strings.Contains(res[i], "no response within") || strings.Contains(res[i], "did not return after end of stream") {
+				kit.Abort(fmt.Sprintf("C19 violated [NewAppEncryption, %d concurrent streams]: stream %d: %s\n  request sequence: %s, end-of-stream", streams, i, res[i], seqString(s)))
+			}
 			kit.Rec.Violation(res[i])
 			t.Fatalf("C19 violated [NewAppEncryption, %d concurrent streams]: stream %d: %s\n  request sequence: %s, end-of-stream", streams, i, res[i], seqString(s))
 		}
